@@ -78,3 +78,59 @@ func vpReleaseVsRebind(prop string) {
 // BOUND: topology 0; two statefulset pods ss-0, ss-1 bound (symbolic policy); ss-0 disappears without its event being handled (so a resync pass has API calls to make); a resync pass runs and, atomically inside any one window right before/after one of its API-server calls (symbolic window 0..10), ss-1 is re-incarnated: deleted, its event handled, re-created with a new UID, filtered and bound on any approved node. Afterwards no two live pods hold one IP and every live bound pod still owns its IP (a freed IP of a live pod is handed to the next pod)
 // ASSUME: C01: interference granularity as in VerifC04_q_resyncVsReincarnation (same scenario, checked under C01)
 func VerifC01_q_resyncVsReincarnation() { vpResyncVsReincarnation("C01") }
+
+// BOUND: topologies {0,1}; two pods whose names (and therefore keys) are in a prefix relation: statefulset pods ss-1 and ss-10 (replicas 11), or bare pods bare-1 and bare-10; symbolic policy; both bound; the shorter-named one ends (finished and/or deleted), its event is handled and / or a resync pass runs; then two more pods are scheduled. The longer-named live pod keeps its IP and no IP is held by two live pods
+func VerifC01_q_prefixSiblings() {
+	w := vpNewWorld(nondetChoice(2), false)
+	if err := w.configure(); err != nil {
+		return
+	}
+	kind := []int{vpKindSts, vpKindBare}[nondetChoice(2)]
+	policy := nondetPick("", "immutable", "never")
+	w.setStatefulSet(11)
+	short, long := vpPodNameOf(kind, 1), vpPodNameOf(kind, 10)
+	for _, name := range []string{short, long} {
+		w.createPod(vpMakePod(name, "U"+name, kind, policy, "", ""))
+		w.syncListers()
+		nodes, err := w.filter(name, "n1", "n2", "n3")
+		if err != nil || len(nodes) == 0 || w.bind(name, nodes[0]) != nil {
+			return
+		}
+		w.setRunning(name)
+	}
+	w.syncListers()
+	w.checkAll("C01", "binding two pods with prefix-related names")
+	if nondetBool() {
+		w.finishPod(short)
+		w.syncListers()
+	}
+	if nondetBool() {
+		w.deletePod(short)
+		w.syncListers()
+	}
+	for len(w.pending) > 0 {
+		if nondetBool() {
+			_ = w.handleEvent(0)
+		} else {
+			w.pending = w.pending[1:]
+		}
+	}
+	if nondetBool() {
+		w.resync()
+	}
+	verifReach("short-name-pod-ended")
+	w.checkAll("C01", "the end of the pod whose key is a prefix of a live pod's key")
+	w.setDeployment(2)
+	for i := 0; i < 2; i++ {
+		other := vpPodNameOf(vpKindDp, i)
+		w.createPod(vpMakePod(other, "V"+other, vpKindDp, "", "", ""))
+		w.syncListers()
+		if nodes, err := w.filter(other, "n1", "n2", "n3"); err == nil && len(nodes) > 0 {
+			if w.bind(other, nodes[0]) == nil {
+				w.setRunning(other)
+			}
+		}
+	}
+	w.syncListers()
+	w.checkAll("C01", "scheduling two more pods afterwards")
+}
